@@ -94,7 +94,7 @@ func mainCheck(args []string) int {
 	if t := os.Getenv("VERIF_TIER"); t != "" && *tier == "" {
 		*tier = t
 	}
-	timeout := 10 * time.Second
+	timeout := 15 * time.Second
 	if *tier == "thorough" {
 		timeout = 60 * time.Second
 	}
